@@ -592,7 +592,7 @@ def CLcons (cl : Option Bytes) (fs : List Field) : Prop :=
   ∃ v, (cl = none ∨ cl = some v) ∧ ∀ f ∈ fs, ciEq f.name clName = true → f.value = v
 
 theorem parseFieldLines_exact : ∀ (fs : List Field) (cl : Option Bytes) (h : Headers), (∀ f ∈ fs, f.WF) → CLcons cl fs →
-    parseFieldLines (fs.map Field.line) cl h = .ok (fs.foldl (fun h f => hdrSet h f.name f.value) h) := by
+    parseFieldLines (fs.map Field.line) cl h = .ok (fs.foldl (fun h f => hdrAdd h f.name f.value) h) := by
   intro fs
   induction fs with
   | nil => intro cl h _ _; rfl
@@ -617,7 +617,7 @@ theorem parseFieldLines_exact : ∀ (fs : List Field) (cl : Option Bytes) (h : H
           exact ih _ _ (fun g hg => hwf g (by simp [hg])) ⟨v, Or.inr (by rw [hfv]), fun g hg => hall g (by simp [hg])⟩
         · subst hv
           simp only [hfv, ne_eq, not_true_eq_false, ↓reduceIte]
-          have := ih (some v) (hdrSet h f.name v) (fun g hg => hwf g (by simp [hg])) ⟨v, Or.inr rfl, fun g hg => hall g (by simp [hg])⟩
+          have := ih (some v) (hdrAdd h f.name v) (fun g hg => hwf g (by simp [hg])) ⟨v, Or.inr rfl, fun g hg => hall g (by simp [hg])⟩
           exact this
       · simp only [hci, Bool.false_eq_true, ↓reduceIte]
         exact ih _ _ (fun g hg => hwf g (by simp [hg])) ⟨v, hv, fun g hg => hall g (by simp [hg])⟩
@@ -800,25 +800,41 @@ theorem hdrFind_hdrSet : ∀ (h : Headers) (k v k' : Bytes),
         simp [h2, this]
       · simp [h2]
 
-theorem hdrFind_foldl_none : ∀ (fs : List Field) (h : Headers) (k : Bytes), (∀ f ∈ fs, ciEq f.name k = false) →
-    hdrFind (fs.foldl (fun h f => hdrSet h f.name f.value) h) k = hdrFind h k := by
+/-- looking up a name other than `Connection`: `hdrAdd` behaves like `headers[name] = value` -/
+theorem hdrFind_hdrAdd (h : Headers) (k v k' : Bytes) (hk' : ciEq (ascii "Connection") k' = false) :
+    hdrFind (hdrAdd h k v) k' = if ciEq k k' then some v else hdrFind h k' := by
+  unfold hdrAdd
+  by_cases hc : ciEq k (ascii "Connection") = true
+  · have hkk : ciEq k k' = false := by rw [ciEq_trans_left hc]; exact hk'
+    simp only [hc, ↓reduceIte, hkk, Bool.false_eq_true]
+    cases hdrFind h k with
+    | none => simp only [hdrFind_hdrSet, hkk, Bool.false_eq_true, ↓reduceIte]
+    | some old => simp only [hdrFind_hdrSet, hkk, Bool.false_eq_true, ↓reduceIte]
+  · simp only [hc, Bool.false_eq_true, ↓reduceIte, hdrFind_hdrSet]
+
+theorem hdrFind_foldl_none : ∀ (fs : List Field) (h : Headers) (k : Bytes), ciEq (ascii "Connection") k = false →
+    (∀ f ∈ fs, ciEq f.name k = false) →
+    hdrFind (fs.foldl (fun h f => hdrAdd h f.name f.value) h) k = hdrFind h k := by
   intro fs
   induction fs with
-  | nil => intro h k _; rfl
+  | nil => intro h k _ _; rfl
   | cons f fs ih =>
-    intro h k hall
+    intro h k hk hall
     simp only [List.foldl_cons]
-    rw [ih _ k (fun g hg => hall g (by simp [hg])), hdrFind_hdrSet, hall f (by simp)]
+    rw [ih _ k hk (fun g hg => hall g (by simp [hg])), hdrFind_hdrAdd _ _ _ _ hk, hall f (by simp)]
     simp
 
-theorem hdrFind_fields (before after : List Field) (f : Field) (k : Bytes)
+theorem hdrFind_fields (before after : List Field) (f : Field) (k : Bytes) (hk : ciEq (ascii "Connection") k = false)
     (hb : ∀ g ∈ before, ciEq g.name k = false) (ha : ∀ g ∈ after, ciEq g.name k = false) (hf : ciEq f.name k = true) :
     hdrFind (headerMap (before ++ [f] ++ after)) k = some f.value := by
   unfold headerMap
-  rw [List.foldl_append, List.foldl_append, hdrFind_foldl_none after _ k ha]
+  rw [List.foldl_append, List.foldl_append, hdrFind_foldl_none after _ k hk ha]
   simp only [List.foldl_cons, List.foldl_nil]
-  rw [hdrFind_hdrSet, hf]
+  rw [hdrFind_hdrAdd _ _ _ _ hk, hf]
   simp
+
+theorem conn_ne_framing : ciEq (ascii "Connection") (ascii "Content-Length") = false ∧
+    ciEq (ascii "Connection") (ascii "Transfer-Encoding") = false := by decide
 
 /-! ### well-formed responses and the framing decision -/
 
@@ -1031,11 +1047,11 @@ theorem determineFraming_exact (method : Bytes) (cap : Nat) (m : Response) (hm :
     have hf : m.fields = m.before ++ m.after := by simp [Response.fields, hbd, Body.field]
     have h1 : hdrFind (headerMap m.fields) (ascii "Transfer-Encoding") = none := by
       rw [hf]; unfold headerMap
-      rw [hdrFind_foldl_none _ _ _ (by intro g hg; rcases List.mem_append.mp hg with hg | hg; exact hbte g hg; exact hate g hg)]
+      rw [hdrFind_foldl_none _ _ _ conn_ne_framing.2 (by intro g hg; rcases List.mem_append.mp hg with hg | hg; exact hbte g hg; exact hate g hg)]
       rfl
     have h2 : hdrFind (headerMap m.fields) (ascii "Content-Length") = none := by
       rw [hf]; unfold headerMap
-      rw [hdrFind_foldl_none _ _ _ (by intro g hg; rcases List.mem_append.mp hg with hg | hg; exact hbcl g hg; exact hacl g hg)]
+      rw [hdrFind_foldl_none _ _ _ conn_ne_framing.1 (by intro g hg; rcases List.mem_append.mp hg with hg | hg; exact hbcl g hg; exact hacl g hg)]
       rfl
     simp only [h1, h2]
     rfl
@@ -1053,7 +1069,7 @@ theorem determineFraming_exact (method : Bytes) (cap : Nat) (m : Response) (hm :
       simp [Response.fields, hbd, Body.field]
     have h1 : hdrFind (headerMap m.fields) (ascii "Transfer-Encoding") = none := by
       rw [hf]; unfold headerMap
-      rw [hdrFind_foldl_none _ _ _ (by
+      rw [hdrFind_foldl_none _ _ _ conn_ne_framing.2 (by
         intro g hg
         rcases List.mem_append.mp hg with hg | hg
         · rcases List.mem_append.mp hg with hg | hg
@@ -1063,7 +1079,7 @@ theorem determineFraming_exact (method : Bytes) (cap : Nat) (m : Response) (hm :
       rfl
     have h2 : hdrFind (headerMap m.fields) (ascii "Content-Length") = some tok := by
       rw [hf]
-      exact hdrFind_fields m.before m.after _ clName hbcl hacl cl_te_distinct.2.2.1
+      exact hdrFind_fields m.before m.after _ clName conn_ne_framing.1 hbcl hacl cl_te_distinct.2.2.1
     simp only [h1, h2, parseContentLength_tok tok b.length hbody.2.1 hbody.2.2.2]
     have : ¬ (b.length > cap) := by omega
     simp only [this, ↓reduceIte]
@@ -1082,10 +1098,10 @@ theorem determineFraming_exact (method : Bytes) (cap : Nat) (m : Response) (hm :
       simp [Response.fields, hbd, Body.field]
     have h1 : hdrFind (headerMap m.fields) (ascii "Transfer-Encoding") = some te := by
       rw [hf]
-      exact hdrFind_fields m.before m.after _ teName hbte hate cl_te_distinct.2.2.2
+      exact hdrFind_fields m.before m.after _ teName conn_ne_framing.2 hbte hate cl_te_distinct.2.2.2
     have h2 : hdrFind (headerMap m.fields) (ascii "Content-Length") = none := by
       rw [hf]; unfold headerMap
-      rw [hdrFind_foldl_none _ _ _ (by
+      rw [hdrFind_foldl_none _ _ _ conn_ne_framing.1 (by
         intro g hg
         rcases List.mem_append.mp hg with hg | hg
         · rcases List.mem_append.mp hg with hg | hg
@@ -1286,5 +1302,41 @@ theorem recv_exact_close (method : Bytes) (cap : Nat) (is : List Interim) (m : R
     have l : m.head.length + 4 = (m.head ++ crlf2).length := by simp [crlf2]
     rw [e, l, List.drop_left']; rfl
   simp [this]
+
+/-! ### responses that never have a body (HEAD / 204 / 304): ANY field list, incl. Content-Length / Transfer-Encoding -/
+
+theorem recv_exact_nobody (method : Bytes) (cap : Nat) (is : List Interim) (sl : StatusLine) (fs : List Field) (x : Bytes)
+    (his : ∀ i ∈ is, InterimWF i) (hsl : sl.WF) (hfin : isInterim sl.status = false) (hfs : ∀ f ∈ fs, f.WF)
+    (hcl : CLcons none fs) (hm : method ≠ ascii "CONNECT")
+    (hnb : method = ascii "HEAD" ∨ sl.status = 204 ∨ sl.status = 304)
+    (hcap : (renderInterims is ++ (joinCRLF (sl.render :: fs.map Field.line) ++ crlf2) ++ x).length ≤ cap) :
+    (recvStep method cap {} (.data (renderInterims is ++ (joinCRLF (sl.render :: fs.map Field.line) ++ crlf2) ++ x))).2 =
+      .response { status := sl.status, text := sl.reason.getD [], version := sl.version, headers := headerMap fs, body := [] }
+        (decide (x ≠ [])) := by
+  have hne : (renderInterims is ++ (joinCRLF (sl.render :: fs.map Field.line) ++ crlf2) ++ x).isEmpty = false := by
+    cases h : renderInterims is ++ (joinCRLF (sl.render :: fs.map Field.line) ++ crlf2) ++ x with
+    | nil => have := congrArg List.length h; simp [crlf2] at this
+    | cons a b => rfl
+  have hcap' : ¬ (([] ++ (renderInterims is ++ (joinCRLF (sl.render :: fs.map Field.line) ++ crlf2) ++ x)).length > cap) := by
+    simpa using hcap
+  simp only [recvStep, hne, Bool.false_eq_true, ↓reduceIte]
+  rw [if_neg hcap']
+  obtain ⟨r, hr⟩ := FR_skip_interims method cap is his (joinCRLF (sl.render :: fs.map Field.line) ++ crlf2 ++ x)
+    { data := [] ++ (renderInterims is ++ (joinCRLF (sl.render :: fs.map Field.line) ++ crlf2) ++ x) } rfl rfl (by simp)
+  simp only [hr]
+  obtain ⟨hf, ht, _, hl⟩ := head_found sl hsl fs hfs x
+  have hp := parseHeaderBlock_exact sl hsl fs hfs hcl
+  have hdf : determineFraming method
+      { status := sl.status, text := sl.reason.getD [], version := sl.version, headers := headerMap fs, body := [] } cap =
+      .ok { mode := .noBody, contentLength := 0 } := by
+    unfold determineFraming
+    simp only [hm, ↓reduceIte, (noBody_iff method sl.status hfin).mpr hnb]
+  rw [FR_final method cap _ (joinCRLF (sl.render :: fs.map Field.line)).length _ _ rfl hl hf (by rw [ht]; exact hp) hfin hdf]
+  simp only [bodyPhase, Bool.false_or]
+  congr 1
+  have : (joinCRLF (sl.render :: fs.map Field.line) ++ crlf2 ++ x).length =
+      ((joinCRLF (sl.render :: fs.map Field.line)).length + 4) + x.length := by simp [crlf2]; omega
+  rw [this]
+  exact decide_ne_nil x _
 
 end Iora.Http
